@@ -159,7 +159,11 @@ func c13Archive(r *gen.RandT, container string) ([]byte, *refcar.Archive, lab.Cf
 }
 
 func inspect(file []byte, validate bool, opts ...carv2.Option) (carv2.Stats, error) {
-	rd, err := carv2.NewReader(bytes.NewReader(file), opts...)
+	var backing io.ReaderAt = bytes.NewReader(file)
+	if len(file)%2 == 1 {
+		backing = lab.EOFReaderAt{B: file} // legal: io.EOF together with the full read that ends at the end
+	}
+	rd, err := carv2.NewReader(backing, opts...)
 	if err != nil {
 		return carv2.Stats{}, err
 	}
